@@ -62,7 +62,7 @@ Example fields_instance :
   line_fields (loader_fields_d31 3) false 3 [Build_entry PS IL; Build_entry PS RI] = 22%nat.
 Proof. exact fields_example. Qed.
 
-(* cksave_iff_save: for every object that vnadata_init admits, every file type and format list,
+(* cksave_iff_save: for every object that vnadata_init accepts, every file type and format list,
    vnadata_cksave accepts iff vnadata_save gets past its checks and conversions (the code after fix D32;
    allocation and I/O failures are outside the model). *)
 Theorem cksave_iff_save : forall o : sobj, wf_obj o = true -> cksave o = save o.
